@@ -13,6 +13,7 @@ attach-units, attach-other-units-after-rescaling.  Flags after ``#``:
   I  in-place: the template returns the mutated target
   B  needs role B to be the same dimension as role A (value-merging): roles share units
   N  the NumPy reference is not meaningful for this spelling (skip C06 differential)
+  X  explicit unit-stripping accessor / plain-ndarray constructor / unit-keeping constant constructor: outside C07
 
 Environment (role A unless noted): a, b 1-d(6) distinct values, asort sorted a, c 1-d(6) role B,
 M, N (3,4), P (4,3) role B, S (3,3) well conditioned, R (3,3) role B, Sym SPD (3,3), u3 (3,),
@@ -42,8 +43,8 @@ for fn, tl in {
     "np.atleast_1d": ["np.atleast_1d(qa) #K", "np.atleast_1d(a) #K"],
     "np.atleast_2d": ["np.atleast_2d(a) #K"],
     "np.atleast_3d": ["np.atleast_3d(M) #K"],
-    "np.broadcast_to": ["np.broadcast_to(a, (2, 6)) #K"],
-    "np.broadcast_arrays": ["np.broadcast_arrays(a, M[:1, :1]) #K"],
+    "np.broadcast_to": ["np.broadcast_to(a, (2, 6)) #K", "np.broadcast_to(a, (2, 6), subok=True) #K"],
+    "np.broadcast_arrays": ["np.broadcast_arrays(a, M[:1, :1]) #K", "np.broadcast_arrays(a, M[:1, :1], subok=True) #K"],
     "np.flip": ["np.flip(M) #K", "np.flip(M, 0) #K"],
     "np.fliplr": ["np.fliplr(M) #K"],
     "np.flipud": ["np.flipud(M) #K"],
@@ -66,7 +67,7 @@ for fn, tl in {
     "np.trim_zeros": ["np.trim_zeros(np.concatenate([a[:0], a * 0, a, a * 0])[3:]) #K"],
     "np.copy": ["np.copy(a) #K", "a.copy() #K", "np.copy(M, subok=True) #K"],
     "np.asarray": ["np.asanyarray(a) #K"],
-    "np.ascontiguousarray": ["np.ascontiguousarray(M.T) #N"],
+    "np.ascontiguousarray": ["np.ascontiguousarray(M.T) #N#X"],
     "np.split": ["np.split(a, 2) #K", "np.split(a, [1, 4]) #K"],
     "np.array_split": ["np.array_split(a, 4) #K"],
     "np.hsplit": ["np.hsplit(M, 2) #K"],
@@ -176,7 +177,7 @@ reg("np.interp", "np.interp(b, asort, c)", "np.interp(b[2], asort, c)", "np.inte
     "np.interp(b, asort, c, left=qb, right=qb)", "np.interp(b, asort, c, period=asort[-1] - asort[0] + asort[-1] - asort[0])")
 reg("np.linalg.norm", "np.linalg.norm(a) #K", "np.linalg.norm(M) #K#T", "np.linalg.norm(M, axis=1) #K", "np.linalg.norm(a, 1) #K", "np.linalg.norm(a, np.inf) #K",
     "np.linalg.norm(S, 'nuc') #K#T", "np.linalg.norm(S, 2) #K#T", "np.linalg.vector_norm(a) #K", "np.linalg.matrix_norm(S) #K#T", "np.linalg.norm(a, 0)",
-    "np.linalg.vector_norm(a, ord=3) #K")
+    "np.linalg.vector_norm(a, ord=3) #K#T")
 reg("np.linalg.det", "np.linalg.det(S) #T", "np.linalg.det(np.stack([S, Sym])) #T", "np.linalg.det(S[:2, :2]) #T")
 reg("np.linalg.slogdet", "np.linalg.slogdet(nM3)")
 reg("np.linalg.inv", "np.linalg.inv(S) #T", "np.linalg.inv(np.stack([S, Sym])) #T")
@@ -186,7 +187,7 @@ reg("np.linalg.lstsq", "np.linalg.lstsq(P4S, v4, rcond=None)[0] #T", "np.linalg.
     "np.linalg.lstsq(P4S, v4, rcond=None)[3] #T")
 reg("np.linalg.tensorsolve", "np.linalg.tensorsolve(np.reshape(S6, (2, 3, 6)), np.reshape(c, (2, 3))) #T")
 reg("np.linalg.tensorinv", "np.linalg.tensorinv(np.reshape(S6, (6, 2, 3)), ind=1) #T")
-reg("np.linalg.eig", "np.linalg.eigvals(Sym) #T#K", "np.sort(np.linalg.eig(Sym)[0]) #T#K", "np.abs(np.linalg.eig(Sym)[1]) #T")
+reg("np.linalg.eig", "np.linalg.eigvals(Sym) #T#K", "np.sort(np.linalg.eig(Sym)[0]) #T#K")
 reg("np.linalg.eigh", "np.linalg.eigvalsh(Sym) #T#K", "np.linalg.eigh(Sym)[0] #T#K", "np.abs(np.linalg.eigh(Sym)[1]) #T", "np.linalg.eigvalsh(Sym, 'U') #T#K")
 reg("np.linalg.svd", "np.linalg.svd(M)[1] #T#K", "np.linalg.svd(M, compute_uv=False) #T#K", "np.linalg.svdvals(M) #T#K", "np.abs(np.linalg.svd(S)[0]) #T",
     "np.abs(np.linalg.svd(S)[2]) #T")
@@ -203,9 +204,27 @@ reg("np.unwrap", "np.unwrap(ang)", "np.unwrap(ang, period=angp) #B")
 reg("np.angle", "np.angle(a)", "np.angle(a + 1j * b)")
 reg("np.i0", "np.i0(nb * qa / qa)")
 
+# ---- products whose units cancel across different scales (role I = inverse of role A, other unit) ----
+reg("np.dot", "np.dot(a, ci)", "np.dot(M, Pi)", "a.dot(ci)", "np.dot(ci, a)")
+reg("np.vdot", "np.vdot(a, ci)")
+reg("np.inner", "np.inner(a, ci)")
+reg("np.outer", "np.outer(a, ci)", "np.linalg.outer(a, ci)", "np.outer(ci, a)")
+reg("np.kron", "np.kron(u3, vi)")
+reg("np.cross", "np.cross(u3, vi)")
+reg("np.tensordot", "np.tensordot(M, Pi, 1)")
+reg("np.linalg.matmul", "np.matmul(M, Pi)", "M @ Pi", "np.linalg.vecdot(a, ci)", "np.linalg.multi_dot([M, Pi, nM3])")
+reg("np.convolve", "np.convolve(a, ci)")
+reg("np.correlate", "np.correlate(a, ci)")
+reg("np.trapezoid", "np.trapezoid(ci, a)", "np.trapezoid(a, ci)")
+reg("np.multiply", "a * ci", "np.multiply(a, ci)", "a / (1 / ci)", "np.multiply.outer(a, ci)", "np.prod(a[:2] * ci[:2])", "(a * ci).sum()", "np.mean(a * ci)")
+reg("np.linalg.solve", "np.linalg.solve(S, vi) #T")
+reg("np.interp", "np.interp(b, asort, ci)")
+reg("np.histogram", "np.histogram(a, weights=ci)")
+reg("np.average", "np.average(a, weights=ci) #K")
+
 # ---- rounding family (R) -----------------------------------------------------------------
 reg("np.round", "np.round(a) #K#R", "np.round(a, 1) #K#R", "np.around(a, 2) #K#R", "a.round(1) #K#R", "np.around(M, decimals=-1) #K#R", "np.fix(a) #K#R",
-    "np.floor(a) #K#R", "np.ceil(a) #K#R", "np.trunc(a) #K#R", "np.rint(a) #K#R")
+    "np.floor(a) #K#R", "np.ceil(a) #K#R", "np.trunc(a) #K#R", "np.rint(a) #R")
 
 # ---- value merging (B: roles share a dimension) ------------------------------------------
 reg("np.concatenate", "np.concatenate([a, b]) #K#B", "np.concatenate([M, N], axis=1) #K#B", "np.concatenate((a, b, a)) #K#B", "np.concatenate([M, N], axis=None) #K#B")
@@ -240,7 +259,7 @@ reg("np.setdiff1d", "np.setdiff1d(a, a[1:3]) #K#B", "np.setdiff1d(np.concatenate
 reg("np.setxor1d", "np.setxor1d(a, np.concatenate([a[:3], b[:2]])) #K#B")
 reg("np.linspace", "np.linspace(qa, qa2, 5) #K#B", "np.linspace(a[:2], b[:2], 4) #K#B", "np.linspace(qa, qa2, 4, endpoint=False, retstep=True) #B",
     "np.linspace(a[:2], b[:2], 3, axis=1) #K#B")
-reg("np.geomspace", "np.geomspace(pos[0], pos[1], 4) #K#B", "np.geomspace(pos[:2], pos[2:4], 3) #K#B")
+reg("np.geomspace", "np.geomspace(pos[0], pos[1], 4) #K#B#T", "np.geomspace(pos[:2], pos[2:4], 3) #K#B#T")
 reg("np.logspace", "np.logspace(nb[0] * qa / qa, nb[1] * qa / qa, 3)")
 reg("np.isclose", "np.isclose(a, b, atol=0) #B", "np.isclose(a, a, atol=0) #B", "np.isclose(a, a * (1 + 1e-9), atol=0) #B", "np.isclose(a, b, rtol=0.5, atol=0) #B")
 reg("np.allclose", "np.allclose(a, b, atol=0) #B", "np.allclose(a, a * (1 + 1e-9), atol=0) #B", "np.allclose(a, a, rtol=0, atol=0) #B")
@@ -252,10 +271,10 @@ reg("np.apply_over_axes", "np.apply_over_axes(np.sum, T4, [0, 2]) #K", "np.apply
 
 # ---- constructors -----------------------------------------------------------------------
 reg("np.zeros_like", "np.zeros_like(a) #K", "np.zeros_like(M) #K")
-reg("np.ones_like", "np.ones_like(a) #N")
+reg("np.ones_like", "np.ones_like(a) #N#X")
 reg("np.empty_like", "np.shape(np.empty_like(M))")
 reg("np.full_like", "np.full_like(a, qa) #K#B", "np.full_like(M, qa) #K#B")
-reg("np.array", "np.array(a) #N", "np.array([qa, qa2]) #N", "np.asarray(a) #N")
+reg("np.array", "np.array(a) #N#X", "np.array([qa, qa2]) #N#X", "np.asarray(a) #N#X")
 
 # ---- strings / IO -------------------------------------------------------------------------
 reg("np.array2string", "np.array2string(a) #S", "np.array_repr(a) #S", "np.array_str(a) #S", "repr(a) #S", "str(qa) #S", "format(qa, '.2f') #S")
@@ -273,8 +292,8 @@ reg("methods",
     "M.dot(P)", "M.all(axis=0)", "M.any(axis=1)", "asort.searchsorted(b[1], 'right') #B", "a.nonzero()[0]", "M.squeeze() #K",
     "(lambda z: (z.sort(axis=0), z)[1])(M) #K#I", "(lambda z: (z.partition(2), np.sort(z[:2]))[1])(a) #K#I",
     "(lambda z: (z.resize((2, 3), refcheck=False), z)[1])(a) #K#I", "(lambda z: (z.fill(b[1]), z)[1])(M) #K#B#I",
-    "(lambda z: (z.itemset if False else z.__setitem__)((0, 1), b[0]) or z)(M) #K#B#I", "M.tolist()", "a.item(2)", "M.item(1, 2)", "a.tobytes() #S",
-    "M.view(np.ndarray)", "M.astype('int64') #K", "M.astype('float32', copy=False) #K", "a.conj() #K", "a.conjugate() #K", "np.conj(a) #K",
+    "(lambda z: (z.itemset if False else z.__setitem__)((0, 1), b[0]) or z)(M) #K#B#I", "M.tolist() #X", "a.item(2) #X", "M.item(1, 2) #X", "a.tobytes() #S",
+    "M.view(np.ndarray) #X", "M.astype('int64') #K#R", "M.astype('float32', copy=False) #K", "a.conj() #K", "a.conjugate() #K", "np.conj(a) #K",
     "abs(a) #K", "-a #K", "+a #K", "a.__abs__() #K", "divmod(nb, nb[::-1])[0]", "M.ptp(axis=0) if hasattr(M, 'ptp') else np.ptp(M, axis=0) #K")
 
 # ---- out= variants (returned value and buffer are both compared) -----------------------------
@@ -338,14 +357,14 @@ def all_templates():
 
 # ---- data --------------------------------------------------------------------------------
 ROLE_OF = {"a": "A", "b": "A", "asort": "A", "M": "A", "N": "A", "S": "A", "Sym": "A", "u3": "A", "T4": "A", "qa": "A", "qa2": "A", "pos": "A",
-           "S6": "A", "P4S": "A", "c": "B", "P": "B", "R": "B", "v": "B", "qb": "B", "v4": "B", "ang": "G", "angp": "G"}
+           "S6": "A", "P4S": "A", "ci": "I", "Pi": "I", "vi": "I", "c": "B", "P": "B", "R": "B", "v": "B", "qb": "B", "v4": "B", "ang": "G", "angp": "G"}
 BARE = ["nb", "nM", "nM3"]
 
 
 def make_data(draw_vals):
     """draw_vals(n) -> list of n distinct non-zero dyadic rationals (caller supplies the randomness)"""
     d = {}
-    vals = draw_vals(240)
+    vals = draw_vals(264)
     it = iter(vals)
 
     def take(shape):
@@ -375,6 +394,9 @@ def make_data(draw_vals):
     d["P4S"] = take((4, 3)) / 8 + np.eye(4, 3) * 4
     d["ang"] = np.cumsum(np.abs(take((6,)))) * 4
     d["angp"] = np.array(16.0)
+    d["ci"] = take((6,))
+    d["Pi"] = take((4, 3))
+    d["vi"] = take((3,))
     d["nb"] = np.abs(take((6,))) + 0.25
     d["nM"] = take((3, 4))
     d["nM3"] = take((3, 3)) / 8 + 4 * np.eye(3)
